@@ -304,6 +304,10 @@ class Interp:
         vals = self.eval_elts(node.elts, fr)
         if all(isinstance(v, (str, int, Fraction, type(None))) for v in vals):
             return set(vals)          # concrete members ({None, "r", "1"})
+        if all(is_num(v) or isinstance(v, (str, type(None))) for v in vals):
+            # numeric symbolic members ({l, r}): a frozen tuple of the members -- membership tests
+            # (`x in {l, r}`, see contains()) are all that is meaningful on it
+            return tuple(vals)
         raise Unsupported("set display with symbolic members")
 
     def eval_elts(self, elts, fr):
